@@ -154,6 +154,15 @@ def oracle_rollup(case, obs):
             out.append(("%s is passed but everything is skipped" % kind, "passed-all-skipped:%s" % kind))
     if all(c in UNT for c in ch) and res != "untested":
         out.append(("%s: nothing executed (%s) but status %s" % (kind, ch, res), "nothing-executed-not-untested:%s" % kind))
+    if kind != "scenario":
+        # the documented table for containers and outlines: de-selected (skipped) children are no execution either, and
+        # "some passed, now untested" is a run cut short, which is failed
+        if all(c in UNT or c == "skipped" for c in ch) and any(c in UNT for c in ch) and res != "untested":
+            out.append(("%s: nothing executed (%s) but status %s" % (kind, ch, res), "nothing-executed-not-untested:%s" % kind))
+        iu = _first(ch, lambda c: c in UNT)
+        if iu is not None and ffail is None and any(c in PASSLIKE for c in ch[:iu]) and res != "failed":
+            out.append(("%s: children %s (some passed, then never executed: the run was cut short) but status %s, the documented table says failed"
+                        % (kind, ch, res), "cut-short-after-passed-not-failed:%s" % kind))
     return out
 
 
